@@ -32,7 +32,12 @@ REQUIRED_THEOREMS = [
     "grid_centres_and_dx", "cell_cart_cell", "cart_cell_cart_radius", "contained_in_all_coords",
     "normalizePoint_contained", "distance_invariant_under_period_shift",
     "distance_invariant_under_period_shift_grid", "distance_invariant_under_period_shift_cell",
+    # Props/C12b: the grid as the constructor creates it, containment as an equivalence, named random draws
+    "construct_axes", "construct_wf", "constructed_centres_and_dx", "cartesian_centres_and_dx",
+    "construct_rejects_bad_radius", "containsGrid_iff_in_bounds", "containsCellPoint_iff_index",
+    "randomPointCart_contained", "randomRadialDraw_contained",
 ]
+EXTRA_PROP_FILES = ["C12b"]
 RULE = ("random grids of every class (UnitGrid, CartesianGrid 1-3d, PolarSymGrid, SphericalSymGrid, "
         "CylindricalSymGrid; 1..200 cells, dyadic and decimal bounds, negative bounds, scales 2^-100..2^100 / "
         "1e-30..1e30 chosen per axis, reversed "
@@ -106,11 +111,20 @@ def spec_bounds(spec):
 
 
 def mgrid(spec):
-    """grid argument of the model driver, built from the constructor arguments (not read back
-    from the real grid: the real bounds are *compared* with it in the geometry leg)"""
-    b = spec_bounds(spec)
-    return {"cls": spec["cls"], "lo": [q(x[0]) for x in b], "hi": [q(x[1]) for x in b],
-            "n": [int(n) for n in spec["shape"]], "periodic": [bool(p) for p in spec["periodic"]]}
+    """grid argument of the model driver: the CONSTRUCTOR ARGUMENTS as they are handed to py-pde.  The driver
+    builds the grid through the model of the constructors (`Grid.construct`, Model/GridCtor.lean: radius number
+    vs pair, flipping of reversed Cartesian bounds, UnitGrid's (0, N)), so every leg is tied to it; the
+    resulting bounds / shape / periodic flags are compared with the real grid in the geometry leg"""
+    c = spec["cls"]
+    g = {"ctor": c, "shape": [int(n) for n in spec["shape"]], "periodic": [bool(p) for p in spec["periodic"]]}
+    if c == "cartesian":
+        g["bounds"] = [[q(b[0]), q(b[1])] for b in spec["bounds"]]
+    elif c != "unit":
+        rad = spec["radius"]
+        g["radius"] = [q(x) for x in rad] if isinstance(rad, (list, tuple)) else [q(rad)]
+        if c == "cylindrical":
+            g["bounds_z"] = [q(spec["bounds_z"][0]), q(spec["bounds_z"][1])]
+    return g
 
 
 def dim_of(spec):
@@ -483,7 +497,11 @@ def leg_geometry(ctx, P, spec):
             return
         ctx.impl_traces += 1
         probs = []
-        mb = [[unq(x) for x in bb] for bb in zip(mgrid(spec)["lo"], mgrid(spec)["hi"])]
+        mg = m["grid"]      # the grid the model of the constructor made of the constructor arguments
+        mb = [[unq(x) for x in bb] for bb in zip(mg["lo"], mg["hi"])]
+        if mg["cls"] != spec["cls"] or [int(n) for n in mg["n"]] != impl["shape"] or [bool(p) for p in mg["periodic"]] != impl["periodic"]:
+            probs.append(("constructed class/shape/periodic", [mg["cls"], mg["n"], mg["periodic"]],
+                          [spec["cls"], impl["shape"], impl["periodic"]]))
         for ax, (bb, ib) in enumerate(zip(mb, impl["bounds"])):
             if not same_list(bb, ib, asc[ax], exact):
                 probs.append(("axes_bounds", [[float(x) for x in bb] for bb in mb], impl["bounds"]))
@@ -1672,6 +1690,125 @@ def leg_malformed(ctx, rng, only=None):
     _ = rng
 
 
+def build_raw(spec):
+    """constructor call with the shape / periodic lists handed over as they are (no unpacking)"""
+    import pde
+    c = spec["cls"]
+    if c == "unit":
+        return pde.UnitGrid(list(spec["shape"]), periodic=list(spec["periodic"]))
+    if c == "cartesian":
+        return pde.CartesianGrid([tuple(b) for b in spec["bounds"]], list(spec["shape"]), periodic=list(spec["periodic"]))
+    rad = spec["radius"]
+    rad = tuple(rad) if isinstance(rad, (list, tuple)) else rad
+    if c == "polar":
+        return pde.PolarSymGrid(rad, list(spec["shape"]))
+    if c == "spherical":
+        return pde.SphericalSymGrid(rad, list(spec["shape"]))
+    return pde.CylindricalSymGrid(rad, tuple(spec["bounds_z"]), list(spec["shape"]), periodic_z=spec["periodic"][-1])
+
+
+CTOR_MUTATIONS = ["valid", "zero cells", "empty shape", "periodic length", "bounds length", "negative inner radius",
+                  "inner == outer", "inner > outer", "extra shape entry", "single shape entry"]
+# `CylindricalSymGrid(r, (z1, z0), ..)` with reversed `bounds_z` is ACCEPTED by /repo (negative spacing and volumes;
+# Lean witness `cylinder_reversed_bounds_z_accepted`, proposed patch notes/proposed_fixes/C12-cylinder-reversed-bounds-z.diff).
+# The stream below produces it (the monitor of this leg then reports the degenerate axis with the inputs); it is switched
+# on with VERIF_C12_REVERSED_Z=1 until the finding is repaired or listed (this round may not edit known_findings.json).
+if os.environ.get("VERIF_C12_REVERSED_Z") == "1":
+    CTOR_MUTATIONS = CTOR_MUTATIONS + ["reversed bounds_z"]
+
+
+def leg_construct(ctx, P, rng, force=None):
+    """constructor arguments (valid, edge and invalid) against the model of the constructors `Grid.construct`:
+    the created axes (bounds after flipping / radius pair, shape, periodic flags, dim, dx) or the error class"""
+    if force is not None:
+        spec, what = force["grid"], force["what"]
+    else:
+        cls = rng.choice(["unit", "cartesian", "cartesian", "polar", "spherical", "cylindrical"])
+        spec = gen_grid(rng, cls, "dyadic" if rng.random() < 0.5 else "decimal", small=True)
+        what = rng.choice(CTOR_MUTATIONS)
+        spec = json.loads(json.dumps(spec))
+        k = len(spec["shape"])
+        radial = cls in ("polar", "spherical", "cylindrical")
+        if what == "zero cells":
+            spec["shape"][rng.randrange(k)] = 0
+        elif what == "empty shape":
+            spec["shape"] = []
+            if not radial:
+                spec["periodic"] = []
+                if cls == "cartesian":
+                    what = "valid"      # (bounds without a shape is another argument error class: not modelled)
+                    spec = gen_grid(rng, cls, "dyadic", small=True)
+        elif what == "periodic length" and not radial:
+            spec["periodic"] = spec["periodic"] + [False]
+        elif what == "bounds length" and cls == "cartesian" and k >= 2:
+            spec["bounds"] = spec["bounds"][:-1]
+        elif what == "negative inner radius" and radial:
+            r = spec["radius"]
+            ro = r[1] if isinstance(r, list) else r
+            spec["radius"] = [-abs(ro) / 4, ro]
+        elif what == "inner == outer" and radial:
+            r = spec["radius"]
+            ro = r[1] if isinstance(r, list) else r
+            spec["radius"] = [ro, ro]
+        elif what == "inner > outer" and radial:
+            r = spec["radius"]
+            ro = r[1] if isinstance(r, list) else r
+            spec["radius"] = [2 * ro, ro]
+        elif what == "extra shape entry" and radial:
+            spec["shape"] = spec["shape"] + [2]
+        elif what == "single shape entry" and cls == "cylindrical":
+            spec["shape"] = spec["shape"][:1]
+        elif what == "reversed bounds_z" and cls == "cylindrical":
+            spec["bounds_z"] = spec["bounds_z"][::-1]
+        else:
+            what = "valid"
+    case = {"leg": "ctor", "what": what, "grid": spec}
+    _begin(case)
+    ctx.count(case, nontrivial=(what == "valid" or what == "single shape entry"), leg="ctor")
+    ctx.monitor_evals += 1
+    try:
+        g = build_raw(spec)
+        impl = {"cls": spec["cls"], "bounds": [[float(x) for x in bb] for bb in g.axes_bounds], "shape": [int(n) for n in g.shape],
+                "periodic": [bool(p) for p in g.periodic], "dim": int(g.dim), "dx": [float(x) for x in g.discretization]}
+        # monitor: an accepted grid has dx = (hi - lo)/N > 0 and ordered bounds on every axis
+        for (lo, hi), n, d in zip(impl["bounds"], impl["shape"], impl["dx"]):
+            if not (lo < hi and n >= 1 and d > 0 and abs(d - (hi - lo) / n) <= TOL * abs(d)):
+                ctx.monitor_fail("ctor", case, impl, "lo < hi, N >= 1, dx = (hi-lo)/N > 0 on every axis",
+                                 "constructor accepted arguments that give a degenerate axis",
+                                 key={"grid_class": spec["cls"], "leg": "ctor"})
+                break
+    except Exception as e:  # noqa: BLE001
+        impl = "error:" + type(e).__name__
+    ctx.hist("ctor", f"{spec['cls']}/{what} -> {impl if isinstance(impl, str) else 'grid'}")
+
+    def cont(resp):
+        st, m = resp
+        ctx.impl_traces += 1
+        if st != "ok":
+            ctx.disagree("ctor", case, f"model driver: {m}", _js(impl), "driver error")
+            return
+        if isinstance(m, str) or isinstance(impl, str):
+            want = {"error:value": "error:ValueError", "error:dimension": "error:DimensionError"}.get(m, "grid") if isinstance(m, str) else "grid"
+            got = impl if isinstance(impl, str) else "grid"
+            if want != got:
+                ctx.disagree("ctor", case, m if isinstance(m, str) else "grid", got, "outcome of the constructor call")
+            return
+        mg = m["grid"]
+        exact = spec.get("mode") == "dyadic" and all(is_pow2(n) for n in impl["shape"])
+        ok = (mg["cls"] == impl["cls"] and [int(n) for n in mg["n"]] == impl["shape"] and m["dim"] == impl["dim"]
+              and [bool(p) for p in mg["periodic"]] == impl["periodic"] and len(mg["lo"]) == len(impl["bounds"]))
+        if ok:
+            for lo, hi, d, (ilo, ihi), idx in zip(mg["lo"], mg["hi"], m["dx"], impl["bounds"], impl["dx"]):
+                sc = max(abs(ilo), abs(ihi))
+                if not (same(unq(lo), ilo, sc, True) and same(unq(hi), ihi, sc, True) and same(unq(d), idx, abs(idx), exact)):
+                    ok = False
+        if not ok:
+            ctx.disagree("ctor", case, {"grid": mg, "dim": m["dim"], "dx": [float(unq(x)) for x in m["dx"]]}, impl,
+                         "constructed axes differ")
+
+    P.add("c12.construct", {"grid": mgrid(spec)}, cont)
+
+
 def leg_malformed_grid(ctx, spec, rng, force=None):
     """malformed requests against a random valid grid: expected outcome is an error class"""
     from pde.grids.base import DimensionError
@@ -1858,6 +1995,8 @@ def run(ctx):
             P.run()          # bounded memory: compare and drop the pending cases
     _guard(ctx, "coordmaps", None, lambda: leg_coordmaps(ctx, P, rng, ctx.budget(600, 10000)))
     _guard(ctx, "malformed", None, lambda: leg_malformed(ctx, rng))
+    for _ in range(ctx.budget(400, 4000)):
+        _guard(ctx, "ctor", None, lambda: leg_construct(ctx, P, rng))
     P.run()
 
 
@@ -1973,6 +2112,9 @@ def run_case(sub, P, c):
         return True
     if not isinstance(spec, dict):
         return False
+    if leg == "ctor":
+        _guard(sub, leg, None, lambda: leg_construct(sub, P, None, force=c))
+        return True
     if not _guard(sub, "construct", spec, lambda: build(spec)):
         return True          # the grid cannot be built any more: that is the failure
     if leg == "construct":
